@@ -439,7 +439,13 @@ def _strat_apply_unitary_from_apply_unitary(
 
 def _apply_unitary_from_matrix(matrix: np.ndarray, unitary_value: Any, args: ApplyUnitaryArgs):
     if args.slices is None:
-        val_qid_shape = qid_shape_protocol.qid_shape(unitary_value, default=(2,) * len(args.axes))
+        default_shape: tuple[int, ...] = (2,) * len(args.axes)
+        if isinstance(unitary_value, np.ndarray):
+            # A bare matrix has no qid shape of its own: use the shape of the targeted axes if it fits.
+            axes_shape = tuple(args.target_tensor.shape[i] for i in args.axes)
+            if np.prod(axes_shape, dtype=np.int64) == matrix.shape[0]:
+                default_shape = axes_shape
+        val_qid_shape = qid_shape_protocol.qid_shape(unitary_value, default=default_shape)
         slices = tuple(slice(0, size) for size in val_qid_shape)
     else:
         slices = args.slices
